@@ -29,8 +29,7 @@ let run () =
           let r = Position.utf8_to_char_index !text (n_of_int (int_of_string i)) in
           print_endline (string_of_int (int_of_n r))
       | [ "K"; s; e ] ->
-          let a = Position.utf8_to_char_index !text (n_of_int (int_of_string s)) in
-          let b = Position.utf8_to_char_index !text (n_of_int (int_of_string e)) in
+          let (a, b) = Position.char_span !text (n_of_int (int_of_string s)) (n_of_int (int_of_string e)) in
           Printf.printf "%d %d\n" (int_of_n a) (int_of_n b)
       | [ "R"; s; e ] ->
           let ((l1, c1), (l2, c2)) =
